@@ -1,8 +1,8 @@
-(* C17 proofs, part 4: the hand-written two-table join path of Database::query (Model/JoinHw.v)
-   returns exactly the rows SQL defines, for every pair of tables, join type, ON condition, WHERE
-   clause and select list OUTSIDE the finding classes 3 (residual ON conjuncts), 4 (outer join +
-   WHERE) and 8 (0.0 / -0.0 keys), provided the predicate evaluator agrees with the reference on the
-   rows it is applied to (that is property C14: Props/C14.v filter_correct). *)
+(* C17 proofs, part 4: the hand-written two-table join path of Database::query (Model/JoinHw.v, the
+   repaired code) returns exactly the rows SQL defines, for every pair of tables, join type, ON
+   condition, WHERE clause and select list (SELECT * included) outside the one open finding class 3
+   (bare names + an equality between two columns of the same input), provided the predicate
+   evaluator agrees with the reference on the rows it is applied to (property C14). *)
 From Coq Require Import ZArith List Bool Lia.
 From TV Require Import Model.SqlSpec Model.PredImpl Model.JoinSpec Model.JoinExec Model.JoinHw
                        Proof.SqlSpecLaws Proof.JoinBag Proof.JoinKeys.
@@ -102,6 +102,97 @@ Proof.
   destruct Hs as [Hs|Hs]; rewrite Hs in *; [rewrite (E1 DF)|rewrite (E2 DF)]; reflexivity.
 Qed.
 
+(* ------------------------------------------------------------------ the hash path accepts every pair whose ON condition is TRUE *)
+Definition fold0 (b : Z) : Z := if b =? 2 ^ 63 then 0 else b.
+Definition kmatch (a b : value) : bool := nkey_eqb (norm_key a) (norm_key b) && equal_coerce a b.
+
+Lemma fkey_fold a b : f_ok a = true -> f_ok b = true -> f_key a = f_key b -> fold0 a = fold0 b.
+Proof.
+  unfold f_ok, f_key, f_sign, fold0. intros Ha Hb.
+  apply andb_true_iff in Ha. destruct Ha as [Ha1 Ha2]. apply andb_true_iff in Hb. destruct Hb as [Hb1 Hb2].
+  apply Z.leb_le in Ha1. apply Z.ltb_lt in Ha2. apply Z.leb_le in Hb1. apply Z.ltb_lt in Hb2.
+  change (2 ^ 64) with 18446744073709551616 in *. change (2 ^ 63) with 9223372036854775808 in *.
+  pose proof (Z.div_mod a 9223372036854775808 ltac:(lia)) as Da. pose proof (Z.div_mod b 9223372036854775808 ltac:(lia)) as Db.
+  pose proof (Z.mod_pos_bound a 9223372036854775808 ltac:(lia)) as Ma. pose proof (Z.mod_pos_bound b 9223372036854775808 ltac:(lia)) as Mb.
+  assert (a / 9223372036854775808 < 2) as Qa by (apply Z.div_lt_upper_bound; lia).
+  assert (b / 9223372036854775808 < 2) as Qb by (apply Z.div_lt_upper_bound; lia).
+  assert (0 <= a / 9223372036854775808) as Pa by (apply Z.div_pos; lia).
+  assert (0 <= b / 9223372036854775808) as Pb by (apply Z.div_pos; lia).
+  destruct (Z.eqb_spec (a / 9223372036854775808) 0) as [Sa|Sa], (Z.eqb_spec (b / 9223372036854775808) 0) as [Sb|Sb];
+    destruct (Z.eqb_spec a 9223372036854775808) as [Ea|Ea], (Z.eqb_spec b 9223372036854775808) as [Eb|Eb]; intros H; lia.
+Qed.
+
+(* `i as f64` as computed by the model is the float that compares Equal to i (a fact about the
+   model's own arithmetic, used only for Int-against-Float keys) *)
+Definition int_bits_exact : Prop :=
+  forall x y, int_float_safe x = true -> f_ok y = true -> f_is_nan y = false ->
+    ifcmp_exact x y = Eq -> f64_bits_of_int x = fold0 y.
+
+Lemma cmp3_tt_kmatch (HI : int_bits_exact) x y : cmp3 CEq x y = Some TT -> kmatch x y = true /\ kmatch y x = true.
+Proof.
+  unfold cmp3, kmatch.
+  destruct x as [|a|a|a|a], y as [|b|b|b|b]; cbn [cmp_values norm_key nkey_eqb equal_coerce]; intros H; try discriminate.
+  - destruct (a ?= b) eqn:E; try discriminate. apply Z.compare_eq in E. subst. rewrite !Z.eqb_refl. split; reflexivity.
+  - unfold ifcmp, if_partial_cmp in *. destruct (int_float_safe a) eqn:S; cbn [andb] in *; [|discriminate].
+    rewrite (round53_small a S). destruct (f_ok b) eqn:O; cbn [andb] in *; [|discriminate].
+    destruct (f_is_nan b) eqn:N; cbn [negb option_map] in *; [discriminate|].
+    destruct (ifcmp_exact a b) eqn:E; try discriminate.
+    fold (fold0 b). rewrite (HI a b S O N E), Z.eqb_refl. split; reflexivity.
+  - unfold ifcmp, if_partial_cmp in *. destruct (int_float_safe b) eqn:S; cbn [andb] in *; [|discriminate].
+    rewrite (round53_small b S). destruct (f_ok a) eqn:O; cbn [andb] in *; [|discriminate].
+    destruct (f_is_nan a) eqn:N; cbn [negb option_map] in *; [discriminate|].
+    destruct (ifcmp_exact b a) eqn:E; try discriminate.
+    fold (fold0 a). rewrite (HI b a S O N E), Z.eqb_refl. split; reflexivity.
+  - unfold f_partial_cmp. destruct (fcmp a b) as [c|] eqn:E; cbn [option_map] in H; [|discriminate].
+    destruct c; try discriminate. rewrite (fcmp_eq_sym a b E).
+    unfold fcmp in E. destruct (f_ok a) eqn:Oa; [|discriminate]. destruct (f_ok b) eqn:Ob; [|discriminate].
+    destruct (f_is_nan a); [discriminate|]. destruct (f_is_nan b); [discriminate|]. cbn in E.
+    inversion E as [E1]. apply Z.compare_eq in E1.
+    fold (fold0 a). fold (fold0 b). rewrite (fkey_fold a b Oa Ob E1), Z.eqb_refl. split; reflexivity.
+  - destruct (bytes_cmp a b) eqn:E; try discriminate. apply bytes_cmp_eq in E. subst.
+    assert (zlist_eqb' b b = true) as R by (apply zlist_eqb'_eq; reflexivity). rewrite R. split; reflexivity.
+  - destruct a, b; cbn in H; try discriminate; split; reflexivity.
+Qed.
+
+Lemma kmatch_not_null a b : kmatch a b = true -> a <> VNull /\ b <> VNull.
+Proof. unfold kmatch. intros H. apply andb_true_iff in H. destruct H as [_ H]. destruct a, b; cbn in H; try discriminate; split; discriminate. Qed.
+
+Lemma hw_keys_complete (HI : int_bits_exact) lw e (l r : row) :
+  length l = lw ->
+  forallb (is_cross_key lw) (conjuncts e) = true ->
+  passes e (l ++ r) = true ->
+  hw_key_match (cross_keys lw (equi_keys e)) l r = true.
+Proof.
+  intros Hl Hall P.
+  assert (sem3 e (l ++ r) <> None) as D by (unfold passes in P; destruct (sem3 e (l ++ r)); [discriminate|discriminate P]).
+  rewrite (conj_passes e _ D) in P. rewrite forallb_forall in P. rewrite forallb_forall in Hall.
+  (* every key the hash path looks at holds two matching values *)
+  assert (forall k, In k (cross_keys lw (equi_keys e)) ->
+            exists a b, nth_error l (fst k) = Some a /\ nth_error r (snd k) = Some b /\ kmatch a b = true) as K.
+  { intros [li ri] Hk. unfold cross_keys in Hk. apply in_flat_map in Hk. destruct Hk as [[i j] [Hij Hk]].
+    unfold equi_keys in Hij. apply in_flat_map in Hij. destruct Hij as [c [Hc Hij]].
+    destruct (key_of c) as [k0|] eqn:Kc; [|destruct Hij]. destruct Hij as [Hij|[]]. subst k0.
+    destruct c; try discriminate. destruct op; try discriminate. destruct c1; try discriminate. destruct c2; try discriminate.
+    cbn [key_of] in Kc. inversion Kc; subst i0 i1. clear Kc.
+    assert (cross_key lw (i, j) = [(li, ri)]) as CK.
+    { unfold cross_key in *. destruct ((i <? lw)%nat && negb (j <? lw)%nat); [destruct Hk as [Hk|[]]; rewrite Hk; reflexivity|].
+      destruct ((j <? lw)%nat && negb (i <? lw)%nat); [destruct Hk as [Hk|[]]; rewrite Hk; reflexivity|destruct Hk]. }
+    specialize (P _ Hc). unfold passes in P.
+    destruct (sem3_cross lw l r i j li ri Hl CK) as [a [b [Ha [Hb Hs]]]]. cbn [fst snd].
+    destruct Hs as [Hs|Hs]; rewrite Hs in P; destruct a as [x|]; try discriminate; destruct b as [y|]; try discriminate;
+      exists x, y; (split; [exact Ha|split; [exact Hb|]]).
+    - destruct (cmp3 CEq x y) as [[]|] eqn:E; try discriminate. apply (cmp3_tt_kmatch HI x y E).
+    - destruct (cmp3 CEq y x) as [[]|] eqn:E; try discriminate. apply (cmp3_tt_kmatch HI y x E). }
+  unfold hw_key_match. apply andb_true_iff. split; [apply andb_true_iff; split|].
+  - apply negb_true_iff. apply not_true_is_false. intros X. unfold null_key in X. apply existsb_exists in X.
+    destruct X as [i [Hi X]]. apply in_map_iff in Hi. destruct Hi as [k [Hk1 Hk2]]. subst i.
+    destruct (K k Hk2) as [a [b [Ha [Hb M]]]]. rewrite Ha in X. destruct (kmatch_not_null a b M) as [Na _]. destruct a; try discriminate. congruence.
+  - apply negb_true_iff. apply not_true_is_false. intros X. unfold null_key in X. apply existsb_exists in X.
+    destruct X as [i [Hi X]]. apply in_map_iff in Hi. destruct Hi as [k [Hk1 Hk2]]. subst i.
+    destruct (K k Hk2) as [a [b [Ha [Hb M]]]]. rewrite Hb in X. destruct (kmatch_not_null a b M) as [_ Nb]. destruct b; try discriminate. congruence.
+  - apply forallb_forall. intros k Hk. destruct (K k Hk) as [a [b [Ha [Hb M]]]]. rewrite Ha, Hb. exact M.
+Qed.
+
 (* ------------------------------------------------------------------ the pair test of the implementation = the ON condition *)
 Definition pred_ok (e : expr) (rows : table) : Prop := forall r, In r rows -> eval_expr e r = PredImpl.Ok (passes e r).
 
@@ -111,39 +202,42 @@ Proof. intros H Hin. unfold ev. rewrite (H r Hin). reflexivity. Qed.
 Lemma in_pairs L R (l r : row) : In l L -> In r R -> In (l ++ r) (pairs_of L R).
 Proof. intros Hl Hr. unfold pairs_of. apply in_flat_map. exists l. split; [exact Hl|]. apply in_map. exact Hr. Qed.
 
-Lemma hw_cond_is_on lw on (L R : table) (l r : row) :
+Lemma pure_cross_nonempty lw e : pure_equi e = true -> forallb (is_cross_key lw) (conjuncts e) = true ->
+  is_nil (cross_keys lw (equi_keys e)) = false.
+Proof.
+  intros _ Hall. assert (conjuncts e <> []) as NE by (destruct e; cbn; try discriminate; intros X; apply app_eq_nil in X; destruct X as [X _]; revert X; clear; induction e1; cbn; try discriminate; intros X; apply app_eq_nil in X; destruct X; auto).
+  destruct (conjuncts e) as [|c cs] eqn:Ec; [congruence|].
+  cbn [forallb] in Hall. apply andb_true_iff in Hall. destruct Hall as [Hc _].
+  unfold is_cross_key in Hc. destruct (key_of c) as [k|] eqn:K; [|discriminate].
+  unfold equi_keys. rewrite Ec. cbn [flat_map]. rewrite K. unfold cross_keys. cbn [app flat_map].
+  destruct (cross_key lw k); [discriminate|reflexivity].
+Qed.
+
+Lemma hw_cond_is_on (HI : int_bits_exact) lw qual on (L R : table) (l r : row) :
   Forall (fun l => length l = lw) L ->
-  residual_on lw on = false -> hash_miss lw on L R = false ->
+  same_side_on lw qual on = false ->
   (forall e, on = Some e -> pred_ok e (pairs_of L R)) ->
   pair_defined on L R = true ->
   In l L -> In r R ->
-  hw_cond lw on l r = pair_tt on l r.
+  hw_cond lw qual on l r = pair_tt on l r.
 Proof.
-  intros HW Hres Hmiss Hev Hdef Hl Hr. destruct on as [e|]; [|reflexivity].
+  intros HW Hss Hev Hdef Hl Hr. destruct on as [e|]; [|reflexivity].
   cbn [hw_cond pair_tt]. unfold on_tt.
   assert (sem3 e (l ++ r) <> None) as D.
   { cbn [pair_defined] in Hdef. unfold on_defined in Hdef. rewrite forallb_forall in Hdef. specialize (Hdef l Hl).
     rewrite forallb_forall in Hdef. specialize (Hdef r Hr). unfold on3 in Hdef. destruct (sem3 e (l ++ r)); [discriminate|discriminate Hdef]. }
-  destruct (is_nil (equi_keys e)) eqn:EK.
+  assert (length l = lw) as Hlen by (rewrite Forall_forall in HW; apply HW; exact Hl).
+  destruct (hash_plan lw qual e) eqn:HP.
+  - unfold hash_plan in HP. apply andb_true_iff in HP. destruct HP as [Hp Hq].
+    assert (forallb (is_cross_key lw) (conjuncts e) = true) as Hall.
+    { cbn [same_side_on] in Hss. rewrite Hp in Hss. destruct qual; cbn [negb andb orb] in *; [exact Hq|].
+      apply negb_false_iff in Hss. exact Hss. }
+    rewrite (pure_cross_nonempty lw e Hp Hall).
+    destruct (passes e (l ++ r)) eqn:P.
+    + apply (hw_keys_complete HI lw e l r); auto.
+    + destruct (hw_key_match (cross_keys lw (equi_keys e)) l r) eqn:M; [|reflexivity].
+      rewrite (hw_keys_sound lw e l r Hlen Hall D M) in P. discriminate.
   - apply ev_ok with (rows := pairs_of L R); [apply Hev; reflexivity|apply in_pairs; assumption].
-  - cbn [residual_on] in Hres. rewrite EK in Hres. cbn [negb andb] in Hres. apply negb_false_iff in Hres.
-    (* all conjuncts are left-right keys, so the key list is not empty *)
-    destruct (is_nil (cross_keys lw (equi_keys e))) eqn:CK.
-    { exfalso. destruct (conjuncts e) as [|c cs] eqn:Ec.
-      - unfold equi_keys in EK. rewrite Ec in EK. discriminate.
-      - cbn [forallb] in Hres. apply andb_true_iff in Hres. destruct Hres as [Hc _].
-        unfold is_cross_key in Hc. destruct (key_of c) as [k|] eqn:K; [|discriminate].
-        unfold equi_keys in CK. rewrite Ec in CK. cbn [flat_map] in CK. rewrite K in CK. cbn [app flat_map cross_keys] in CK.
-        unfold cross_keys in CK. cbn [flat_map] in CK. destruct (cross_key lw k); [discriminate|discriminate CK]. }
-    destruct (hw_key_match (cross_keys lw (equi_keys e)) l r) eqn:M.
-    + symmetry. apply (hw_keys_sound lw e l r); auto. rewrite Forall_forall in HW. apply HW. exact Hl.
-    + (* no hash miss: ON TRUE would have been matched *)
-      destruct (passes e (l ++ r)) eqn:P; [|reflexivity]. exfalso.
-      unfold hash_miss, hw_uses_hash in Hmiss. rewrite CK in Hmiss. cbn [negb andb] in Hmiss.
-      assert (existsb (fun l0 => existsb (fun r0 => on_tt e l0 r0 && negb (hw_cond lw (Some e) l0 r0)) R) L = true) as X.
-      { apply existsb_exists. exists l. split; [exact Hl|]. apply existsb_exists. exists r. split; [exact Hr|].
-        unfold on_tt. rewrite P. cbn [hw_cond]. rewrite EK, CK, M. reflexivity. }
-      rewrite X in Hmiss. discriminate.
 Qed.
 
 (* ------------------------------------------------------------------ join_rows depends on the condition only on L x R *)
@@ -160,62 +254,33 @@ Proof.
     apply existsb_ext_in. intros l Hl. apply E; assumption.
 Qed.
 
-Lemma filter_map_comm {X Y} (p : Y -> bool) (f : X -> Y) l : filter p (map f l) = map f (filter (fun x => p (f x)) l).
-Proof. induction l as [|x l IH]; cbn [map filter]; [reflexivity|]. destruct (p (f x)); cbn [map]; rewrite IH; reflexivity. Qed.
-
-(* an inner join filtered by WHERE = the inner join under (ON and WHERE) *)
-Lemma inner_where (on : row -> row -> bool) (wv : row -> bool) lw rw jt (L R : table) :
-  left_outer jt = false -> right_outer jt = false ->
-  filter wv (join_rows jt lw rw on L R) = join_rows jt lw rw (fun l r => on l r && wv (l ++ r)) L R.
-Proof.
-  intros H1 H2. unfold join_rows, join_g. rewrite H1, H2, !app_nil_r. unfold inner_part.
-  rewrite filter_flat_map. apply flat_map_ext. intros l.
-  rewrite filter_map_comm, filter_filter. reflexivity.
-Qed.
-
-Lemma in_join_inner (on : row -> row -> bool) lw rw jt (L R : table) x :
-  left_outer jt = false -> right_outer jt = false ->
-  In x (join_rows jt lw rw on L R) -> exists l r, In l L /\ In r R /\ x = l ++ r.
-Proof.
-  intros H1 H2. unfold join_rows, join_g. rewrite H1, H2, !app_nil_r. unfold inner_part.
-  intros H. apply in_flat_map in H. destruct H as [l [Hl H]]. apply in_map_iff in H. destruct H as [r [E H]].
-  apply filter_In in H. destruct H as [Hr _]. exists l, r. auto.
-Qed.
-
 (* ------------------------------------------------------------------ the theorem *)
-Theorem hw2_correct_l : forall jt lw rw on w sel (L R : table) t s,
-  let q := mkq [(lw, L); (rw, R)] [(jt, on)] w (Some sel) in
-  cls_sql q false = 0 ->
+Theorem hw2_correct_l : int_bits_exact ->
+  forall jt lw rw qual on w sel (L R : table) t s,
+  let q := mkq [(lw, L); (rw, R)] [(jt, on)] w sel in
+  cls_sql q qual = 0 ->
   Forall (fun l => length l = lw) L ->
   (forall e, opt_on jt on = Some e -> pred_ok e (pairs_of L R)) ->
-  (forall e, w = Some e -> pred_ok e (pairs_of L R)) ->
-  hw_model q false = HRows t ->
+  (forall e, w = Some e -> pred_ok e (join_rows jt lw rw (pair_tt (opt_on jt on)) L R)) ->
+  hw_model q qual = HRows t ->
   query_spec q = Some s ->
   t = s.
 Proof.
-  intros jt lw rw on w sel L R t s q Hc HW Hon Hw Hm Hs.
-  unfold hw_model, q in Hm. cbn [q_tabs q_joins q_sel q_where andb] in Hm.
-  unfold cls_sql, q in Hc. cbn [q_tabs q_joins q_sel q_where] in Hc.
+  intros HI jt lw rw qual on w sel L R t s q Hc HW Hon Hw Hm Hs.
+  unfold hw_model, q in Hm. cbn [q_tabs q_joins q_sel q_where] in Hm.
+  unfold cls_sql, q in Hc. cbn [q_tabs q_joins] in Hc.
   set (on' := opt_on jt on) in *.
-  destruct (residual_on lw on') eqn:Hres; [discriminate|].
-  destruct ((left_outer jt || right_outer jt) && is_some w) eqn:H4; [discriminate|].
-  cbn [andb] in Hc.
-  destruct (hash_miss lw on' L R) eqn:Hmiss; [discriminate|]. clear Hc.
+  destruct (same_side_on lw qual on') eqn:Hss; [discriminate|]. clear Hc.
   unfold query_spec, q in Hs. cbn [q_tabs q_joins q_sel q_where from_spec] in Hs. fold on' in Hs.
   destruct (pair_defined on' L R) eqn:Hdef; [|discriminate].
-  unfold hw2 in Hm. fold on' in Hm. destruct (hw_status lw on' w L R) as [|p|p]; [|destruct p; discriminate|discriminate].
-  assert (forall l r, In l L -> In r R -> hw_cond lw on' l r = pair_tt on' l r) as Hcond.
-  { intros l r Hl Hr. apply (hw_cond_is_on lw on' L R l r); auto. }
+  unfold hw2 in Hm. fold on' in Hm.
+  rewrite (join_rows_ext_in jt lw rw (hw_cond lw qual on') (pair_tt on') L R) in Hm.
+  2:{ intros l r Hl Hr. apply (hw_cond_is_on HI lw qual on' L R l r); auto. }
+  destruct (hw_status lw qual on' w (join_rows jt lw rw (pair_tt on') L R) L R) as [|p|p]; [|destruct p; discriminate|discriminate].
   destruct w as [e|].
-  - (* WHERE: the join is inner *)
-    cbn [is_some] in H4. rewrite andb_true_r in H4. apply orb_false_iff in H4. destruct H4 as [Hlo Hro].
-    destruct (defined_on e (join_rows jt lw rw (pair_tt on') L R)) eqn:Hde; [|discriminate].
-    rewrite (inner_where (pair_tt on') (passes e) lw rw jt L R Hlo Hro) in Hs.
-    rewrite (join_rows_ext_in jt lw rw (fun l r => hw_cond lw on' l r && ev e (l ++ r)) (fun l r => pair_tt on' l r && passes e (l ++ r)) L R) in Hm.
+  - destruct (defined_on e (join_rows jt lw rw (pair_tt on') L R)); [|discriminate].
+    rewrite (filter_ext_in (ev e) (passes e)) in Hm.
     + rewrite Hs in Hm. inversion Hm. reflexivity.
-    + intros l r Hl Hr. rewrite (Hcond l r Hl Hr). f_equal.
-      apply ev_ok with (rows := pairs_of L R); [apply Hw; reflexivity|apply in_pairs; assumption].
-  - rewrite (join_rows_ext_in jt lw rw (fun l r => hw_cond lw on' l r && true) (pair_tt on') L R) in Hm.
-    + rewrite Hs in Hm. inversion Hm. reflexivity.
-    + intros l r Hl Hr. rewrite andb_true_r. apply Hcond; assumption.
+    + intros x Hx. apply ev_ok with (rows := join_rows jt lw rw (pair_tt on') L R); [apply Hw; reflexivity|exact Hx].
+  - rewrite Hs in Hm. inversion Hm. reflexivity.
 Qed.
